@@ -465,6 +465,14 @@ pub fn run(a: &Args) {
             }
         }
     }
+    // a truncated stream whose pending back-reference completes rows in the very call that reports the corruption
+    for (w, h, matches) in [(33000u32, 1u32, 128usize), (255, 200, 128), (63, 600, 129)] {
+        let z = crate::c01::zlib_fixed_run_truncated(&[0, 0x55], matches);
+        let bytes = assemble(&[ihdr(w, h, 8, 0, 0), Chunk::new(b"IDAT", z), Chunk::new(b"IEND", vec![])]);
+        let inj = Inj { label: format!("zlib-truncated-with-pending-match#{}x{}", w, h), bytes, frame: Some(0) };
+        check_injection(&mut o, "crafted", &inj, Opts::default(), &[]);
+        check_polling_after_error(&mut o, "crafted", &inj, Opts::default());
+    }
     // chunk-kind sequences against the reference automaton
     let maxlen = if thorough { 6 } else { 5 };
     let mut nseq = 0u64;
